@@ -1,6 +1,8 @@
 import Driver.C08
 import Driver.C07X
 import Qryn.LogQL.PlannerMetricX
+import Qryn.LogQL.SemMetricX
+import Qryn.LogQL.SupportedX
 /-! line protocol for the metric planner model of the labelled path (`LogQL.planMetricX`): selectors with `| json l="p"`,
     `| regexp`, `| drop`, filters after them, and `quantile_over_time`. -/
 namespace Driver.C08X
@@ -33,7 +35,53 @@ def queryX? (args : List String) : Option (MetricQueryX × List String) := do
     some (⟨r, agg, topk⟩, rest')
   | _ => none
 
+/-! ### concrete oracles of the semantic search for the new stages (any fixed functions do: both sides use the same ones).
+    Lines are read as blank-separated `name=value` tokens: the "document" field at a path is the value of the token named
+    by the path's text; the i-th capture group of any pattern captures the value of the i-th token. -/
+def bytesStr (bs : Bytes) : String := String.ofList (bs.map (fun c => Char.ofNat c.toNat))
+
+def tokens (line : Bytes) : List (String × Bytes) :=
+  ((bytesStr line).splitOn " ").filterMap (fun t => match t.splitOn "=" with
+    | [k, v] => some (k, v.toUTF8.toList)
+    | _ => none)
+
+def pathText (p : List JArg) : String :=
+  ".".intercalate (p.map (fun a => match a with | .key k => bytesStr k | .idx i => s!"[{i}]"))
+
+/-- linear interpolation between the closest ranks of the sorted values (φ clamped to [0,1]) -/
+def quantileLin (phi : Rat) (vs : List Rat) : Rat :=
+  let s := (vs.toArray.qsort (fun a b => a < b)).toList
+  match s with
+  | [] => 0
+  | x :: _ =>
+    let n := s.length
+    let p := if phi < 0 then 0 else if 1 < phi then 1 else phi
+    let rank := p * ((n - 1 : Nat) : Int)
+    let lo := rank.floor.toNat
+    let a := s.getD lo x
+    let b := s.getD (lo + 1) a
+    a + (b - a) * (rank - (lo : Int))
+
+/-- square root rounded down to three decimals -/
+def sqrtMilli (x : Rat) : Rat :=
+  if x ≤ 0 then 0 else ((Nat.sqrt (x * 1000000).floor.toNat : Nat) : Int) / (1000 : Int)
+
+def oraclesX : Oracles := { oracles with
+  jsonField := fun line p => ((tokens line).lookup (pathText p)).getD []
+  reCaps := fun _ line => (tokens line).map (·.2)
+  quantile := quantileLin
+  sqrt := sqrtMilli }
+
 def handle : List String → Option String
+  | "c08semx" :: args => do
+    let (c, rest) ← mctx? args
+    let (q, rest') ← queryX? rest
+    let d ← db? rest'
+    let plan := (evalSelA oraclesX (d.toDbM c) (planMetricX c q)).map normRow
+    let spec := evalMetricX oraclesX c d q
+    let cls := s!"{planClassX q} {stageCountX c q}"
+    if plan == spec then some s!"ok {plan.length} {cls}"
+    else some s!"diff {showTable plan} {showTable spec} {cls}"
   | "c08planx" :: args => do
     let (c, rest) ← mctx? args
     let (q, rest') ← queryX? rest
